@@ -23,6 +23,7 @@ Definition rq_lit (l : lit) : str :=
   | LFloat n k => 102 :: show_float n k
   | LBool _ => lit_text l
   | LStr s => 115 :: quote_sql s
+  | LTemporal k s => 116 :: (48 + k) :: quote_sql s
   end.
 Fixpoint rq_ser (r : rexpr) : str :=
   match r with
